@@ -630,6 +630,10 @@ func (x *c18) runErrors() {
 		{"PAN-OS", panEmptyCfg, core.Files{Main: panClashCfg("r1", "10.1.1.10/32", "80", "a1", "tcp 80"), Raw: panClashCfg("raw1", "10.1.1.10/32", "80", "a1", "udp 53")}, "name clash: raw service-group with the name of a Netspoc service-group"},
 		{"Linux", "", core.Files{Main: "*filter\n:FORWARD DROP\n-A FORWARD -j ACCEPT -s 10.1.1.1\nCOMMIT\n",
 			Raw: "*filter\n:FORWARD DROP\n-A FORWARD -j ACCEPT -s 10.7.7.1\n*filter\n:FORWARD DROP\n-A FORWARD -j ACCEPT -s 10.7.7.2\n"}, "table defined twice in the raw file"},
+		{"NSX", "", core.Files{Main: `{"policies":[{"id":"Netspoc-v1","resource_type":"GatewayPolicy","rules":[{"id":"r1","action":"ALLOW","sequence_number":20,"source_groups":["10.1.1.1"],"destination_groups":["ANY"],"services":["ANY"],"scope":["/infra/tier-0s/v1"],"direction":"OUT","ip_protocol":"IPV4"}]}]}`, V6: `{"policies":[{"id":"Netspoc-v1","resource_type":"GatewayPolicy","rules":[{"id":"v6r1","action":"ALLOW","sequence_number":20,"source_groups":["::a01:101"],"destination_groups":["ANY"],"services":["ANY"],"scope":["/infra/tier-0s/v1"],"direction":"OUT","ip_protocol":"IPV6"}]}]}`, Raw: `{"policies":[{"id":"Netspoc-v1","resource_type":"GatewayPolicy","rules":[{"id":"v6r1","action":"DROP","sequence_number":20,"source_groups":["::a01:102"],"destination_groups":["ANY"],"services":["ANY"],"scope":["/infra/tier-0s/v1"],"direction":"OUT","ip_protocol":"IPV6"}]}]}`}, "name clash: raw rule with the name of a Netspoc IPv6 rule"},
+		{"NSX", "", core.Files{Main: `{"policies":[{"id":"Netspoc-v1","resource_type":"GatewayPolicy","rules":[{"id":"r1","action":"ALLOW","sequence_number":20,"source_groups":["10.1.1.1"],"destination_groups":["ANY"],"services":["ANY"],"scope":["/infra/tier-0s/v1"],"direction":"OUT","ip_protocol":"IPV4"}]}]}`, V6: `{"groups":[{"id":"Netspoc-v6g0","expression":[{"id":"id","resource_type":"IPAddressExpression","ip_addresses":["::a01:101","::a01:102"]}]}],"policies":[{"id":"Netspoc-v1","resource_type":"GatewayPolicy","rules":[{"id":"v6r1","action":"ALLOW","sequence_number":20,"source_groups":["/infra/domains/default/groups/Netspoc-v6g0"],"destination_groups":["ANY"],"services":["ANY"],"scope":["/infra/tier-0s/v1"],"direction":"OUT","ip_protocol":"IPV6"}]}]}`,
+			Raw: `{"groups":[{"id":"Netspoc-v6g0","expression":[{"id":"id","resource_type":"IPAddressExpression","ip_addresses":["::a01:109"]}]}],"policies":[{"id":"Netspoc-v1","resource_type":"GatewayPolicy","rules":[{"id":"raw1","action":"DROP","sequence_number":20,"source_groups":["/infra/domains/default/groups/Netspoc-v6g0"],"destination_groups":["ANY"],"services":["ANY"],"scope":["/infra/tier-0s/v1"],"direction":"OUT","ip_protocol":"IPV6"}]}]}`}, "name clash: raw group with the name of a Netspoc IPv6 group"},
+		{"PAN-OS", panEmptyCfg, core.Files{Main: panClashCfg("r1", "10.1.1.10/32", "80", "a1", "tcp 80"), V6: panClashCfg("v6r1", "10.1.1.10/32", "80", "a1", "tcp 80"), Raw: strings.Replace(panClashCfg("v6r1", "10.1.1.10/32", "80", "a1", "tcp 80"), "<action>allow", "<action>deny", 1)}, "name clash: raw rule with the name of a Netspoc IPv6 rule"},
 		{"NSX", "", core.Files{Main: "", Raw: `{"groups":[{"id":"other-g1","expression":[{"id":"id","resource_type":"IPAddressExpression","ip_addresses":["10.1.1.1"]}]}]}`}, "forbidden group name"},
 		{"NSX", "", core.Files{Main: "", Raw: `{"policies":[{"id":"Netspoc-v1","rules":[{"id":"r1","action":"ALLOW","sequence_number":1,"source_groups":["ANY"],"destination_groups":["ANY"],"services":["ANY"],"scope":["/infra/tier-0s/v1"],"direction":"OUT"}]}]}`}, "forbidden rule name"},
 	}
